@@ -246,7 +246,14 @@ func buildWorld(nAuth, nCons, nProd, nHand int) (*world, error) {
 				}
 				sort.Strings(ps)
 				rw.Header().Set("X-Seen-Params", strings.Join(ps, "&"))
-				if _, r2, err := w.ctx.Authorize(r, route); err == nil && r2 != nil {
+				// the way generated servers use the exported accessor: authorize, and answer with the error if it fails
+				// (never go on after a failed Authorize: the route is then marked as having an authenticator)
+				_, r2, err := w.ctx.Authorize(r, route)
+				if err != nil {
+					w.ctx.Respond(rw, r, route.Produces, route, err)
+					return
+				}
+				if r2 != nil {
 					r = r2
 					switch p := middleware.SecurityPrincipalFrom(r).(type) {
 					case *principal:
@@ -286,7 +293,7 @@ func (r Req) build(token string) *http.Request {
 	switch r.Cred {
 	case "key2", "both":
 		target += "&k2=k-" + token
-	case "bad2":
+	case "bad2", "badboth":
 		target += "&k2=bad-" + token
 	}
 	var body io.Reader
@@ -312,7 +319,7 @@ func (r Req) build(token string) *http.Request {
 	switch r.Cred {
 	case "key1", "both":
 		req.Header.Set("X-Key", "k-"+token)
-	case "bad1":
+	case "bad1", "badboth":
 		req.Header.Set("X-Key", "bad-"+token)
 	case "zero-int", "zero-string", "zero-bool", "zero-struct":
 		req.Header.Set("X-Key", map[string]string{"zero-int": "z0-", "zero-string": "zs-", "zero-bool": "zf-", "zero-struct": "ze-"}[r.Cred]+token)
